@@ -25,7 +25,7 @@ CONSTANTS Scope,     \* "small" | "full"
                           \* parameter (today they do not: non-primitive entries are dropped for such requests - a named deviation;
                           \* the harness reads it off inspect.signature, and if a client offers it, it must work like any other)
 
-Fields == {"name", "count", "flag", "tags", "labels", "inner.name", "kind", "class", "blob", "vals", "request_id", "opt_request_id"}
+Fields == {"name", "count", "flag", "tags", "labels", "inner.name", "inner.tags", "kind", "class", "blob", "vals", "request_id", "opt_request_id"}
 PresenceFields == {"opt_request_id"}        \* explicit presence (proto3 optional)
 NoVal == [f \in Fields |-> 0]
 
@@ -46,7 +46,7 @@ Methods ==
        flat |-> FlatOf(<< <<>>, <<"name", "tags", "count">>, <<"name", "count">>, <<"vals">> >>), auto |-> {}],   \* the first signature is empty
     [name |-> "PlainThing",  cs |-> FALSE, ss |-> FALSE, void |-> FALSE, dep |-> FALSE, flat |-> <<>>, auto |-> {}],
     \* replies with the API's own message named Empty (it has fields): void means google.protobuf.Empty, nothing else
-    [name |-> "NullThing",   cs |-> FALSE, ss |-> FALSE, void |-> FALSE, dep |-> FALSE, flat |-> <<>>, auto |-> {}],
+    [name |-> "NullThing",   cs |-> FALSE, ss |-> FALSE, void |-> FALSE, dep |-> FALSE, flat |-> <<"inner.tags">>, auto |-> {}],   \* dotted path to a REPEATED leaf
     \* RPC names that need disambiguation in the surface (Python keyword; a name the transport uses itself): the wire path keeps them
     [name |-> "Import",      cs |-> FALSE, ss |-> FALSE, void |-> FALSE, dep |-> FALSE, flat |-> <<>>, auto |-> {}],
     [name |-> "CreateChannel", cs |-> FALSE, ss |-> TRUE, void |-> FALSE, dep |-> FALSE, flat |-> <<>>, auto |-> {}],
